@@ -127,7 +127,7 @@ def _C15():
 def _C04():
     from props import order
     return {"arms": [Arm(order, "order", 6000, 150000, label="S-ORDER"), _hist("C04", 12000, 250000),
-                     _cpp("C04", 32, 800)],
+                     _cpp("C04", 48, 800)],
             "level": "exploration",
             "rule": RULE_ORDER + "; second arm (S-HIST worlds): every struct/union of every prophy-language world is "
                     "compared (prophyc model node and generated Python class vs reference layout) and every encoding of a "
@@ -236,17 +236,17 @@ def _cpp(prop, q, t):
 
 
 def _C03():
-    return {"arms": [_cpp("C03", 64, 1200)], "level": "exploration", "rule": RULE_CPP, "assumptions": ASSUME_CPP,
+    return {"arms": [_cpp("C03", 96, 1200)], "level": "exploration", "rule": RULE_CPP, "assumptions": ASSUME_CPP,
             "real_stub": REAL_STUB_CPP}
 
 
 def _C05():
-    return {"arms": [_cpp("C05", 64, 1200)], "level": "exploration", "rule": RULE_CPP, "assumptions": ASSUME_CPP,
+    return {"arms": [_cpp("C05", 96, 1200)], "level": "exploration", "rule": RULE_CPP, "assumptions": ASSUME_CPP,
             "real_stub": REAL_STUB_CPP}
 
 
 def _C07():
-    return {"arms": [_cpp("C07", 64, 1200)], "level": "fault_enumeration", "rule": RULE_CPP, "assumptions": ASSUME_CPP,
+    return {"arms": [_cpp("C07", 96, 1200)], "level": "fault_enumeration", "rule": RULE_CPP, "assumptions": ASSUME_CPP,
             "real_stub": REAL_STUB_CPP}
 
 
